@@ -62,7 +62,59 @@ def rewrite1 (path : Str) (rule : Str × Str) : Str :=
      | none => path)
   | _ => if contains pat path then value else path
 
-def rewrite (l : LocCfg) (path : Str) : Str := l.rewrites.foldl rewrite1 path
+/-! General wildcard rules (`/rest/*/user/*:/$1/$2`): the pattern is the literals between the
+stars joined by `(\S*)`; the regexp engine's leftmost, greedy-with-backtracking match is modelled
+directly (the literals are assumed to contain no regexp metacharacters, and at most nine stars). -/
+
+/-- split at every `*` -/
+def splitStars : Str → List Str
+  | [] => [[]]
+  | c :: cs =>
+    match splitStars cs with
+    | [] => [[c]]
+    | h :: t => if c = '*' then [] :: h :: t else (c :: h) :: t
+
+/-- match `l₀(\S*)l₁(\S*)…lₖ` at the START of `s`: the captures, each star taking the longest
+run of non-blank characters that still lets the rest match -/
+def matchHere : List Str → Str → Option (List Str)
+  | [], _ => some []
+  | [l], s => if hasPrefix l s then some [] else none
+  | l :: l2 :: rest, s =>
+    if hasPrefix l s then
+      let s' := s.drop l.length
+      let run := (takeNonSpace s').length
+      ((List.range (run + 1)).reverse).findSome? fun n =>
+        (matchHere (l2 :: rest) (s'.drop n)).map fun caps => s'.take n :: caps
+    else none
+
+/-- leftmost match anywhere in the path -/
+def matchAny (lits : List Str) (path : Str) : Option (List Str) :=
+  (List.range (path.length + 1)).findSome? fun i => matchHere lits (path.drop i)
+
+/-- `strings.NewReplacer("$1", c₁, "$2", c₂, …).Replace(value)` for at most nine captures -/
+def substN (caps : List Str) : Str → Str
+  | [] => []
+  | [c] => [c]
+  | c :: d :: r =>
+    if c = '$' ∧ '1' ≤ d ∧ d ≤ '9' ∧ d.toNat - '1'.toNat < caps.length
+    then (caps.getD (d.toNat - '1'.toNat) []) ++ substN caps r
+    else c :: substN caps (d :: r)
+
+/-- one rule of any documented form -/
+def rewriteG (path : Str) (rule : Str × Str) : Str :=
+  let lits := splitStars rule.1
+  if lits.length ≤ 1 ∨ lits.length > 10 then rewrite1 path rule
+  else match matchAny lits path with
+    | some caps => substN caps rule.2
+    | none => path
+
+/-- rules with a single trailing star or none go through `rewrite1` (about which the C15 theorems
+speak); any other wildcard placement through the general matcher -/
+def rewriteRule (path : Str) (rule : Str × Str) : Str :=
+  let stars := (rule.1.filter (· = '*')).length
+  if stars = 0 ∨ (stars = 1 ∧ rule.1.reverse.head? = some '*') then rewrite1 path rule else rewriteG path rule
+
+def rewrite (l : LocCfg) (path : Str) : Str := l.rewrites.foldl rewriteRule path
 
 /-- `AddQuery`: the client's raw query byte for byte, then the configured parameters -/
 def addQuery (l : LocCfg) (raw : Str) : Str :=
